@@ -130,6 +130,10 @@ Qed.
     { pose proof (size_bound_61 c _ HB). assert (2 ^ 61 < 2 ^ 64) by (apply N.pow_lt_mono_r; lia).
       pose proof (rel_esz_pos c is_rela). nia. }
     rewrite (wrap_small 64) by exact H64.
+    destruct (table_data_some (rel_enc c e is_rela) (rel_esz c is_rela) (rel_enc_len c e is_rela) s es j r HI HC Hn
+                (rel_esz_pos c is_rela)) as [b Eb].
+    assert (Hm : forall (A : Type) (x y : A), match s_data s with Some _ => x | None => y end = x) by (intros; now rewrite Eb).
+    rewrite Hm.
     rewrite (table_read (rel_enc c e is_rela) (rel_esz c is_rela) (rel_enc_len c e is_rela) s es j r HI HC Hn).
     cbn [bind].
     destruct (rel_decode c e is_rela r Hf) as (D0 & D1 & D2 & D3). cbv zeta in D0, D1, D2, D3.
